@@ -296,10 +296,13 @@ func (x *Exec) builtin(s *State, b *ssa.Builtin, call *ssa.CallCommon, args []Va
 		at := call.Args[0].Type()
 		switch u := at.Underlying().(type) {
 		case *types.Map:
-			x.E.Note("len(map) is uninterpreted")
-			r := smt.Fresh("maplen", smt.Int)
-			s.assume(smt.Le(smt.IntC(0), r))
-			return TermVal{r}, true
+			x.E.Note("len(map) is an uninterpreted function of the key set, known to be 0 exactly for the empty set")
+			m := x.toTerm(s, args[0], at)
+			r, facts := x.E.mapLen(at, smt.Select(x.Heap(s, x.E.mapDomHeap(at)), m))
+			for _, f := range facts {
+				s.assume(f)
+			}
+			return TermVal{smt.Ite(smt.Eq(m, RefNil), smt.IntC(0), r)}, true
 		case *types.Chan:
 			r := smt.Fresh("chanlen", smt.Int)
 			s.assume(smt.Le(smt.IntC(0), r))
